@@ -130,7 +130,8 @@ def h_single(e, cfg):
     new = {"dt": (newv, du0, in0), "duration": (dt0, newv, in0), "inclusive": (dt0, du0, newv)}[which]
     N1 = size_formula(*new)
     e.tag(storage=cfg["storage"], grow=(N1 > N0), shrink=(N1 < N0), which=which, initialised=True)
-    D = e.sym((N0, *shape), torch.float32, "D")
+    dtype = {"float32": torch.float32, "float64": torch.float64, "int64": torch.int64, "bool": torch.bool}[cfg.get("dtype", "float32")]
+    D = e.sym((N0, *shape), dtype, "D", **({"lo": -2 ** 41, "hi": 2 ** 41} if dtype == torch.int64 else {}))
     rec.value = D
     p = cfg["ptr"] % N0
     if p:
@@ -139,6 +140,7 @@ def h_single(e, cfg):
     M = [arr[(p - j) % N0, ...] for j in range(N0 + 1)]
     setattr(rec, which, newv)
     e.oblige("size:formula", rec.recordsz == N1 and tuple(rec.value.shape) == (N1, *shape), got=rec.recordsz, expected=N1)
+    e.oblige("resize:dtype-kept", rec.value.dtype == dtype, got=str(rec.value.dtype), expected=str(dtype))      # observations are preserved, not converted
     zero = np.zeros(shape, dtype=object)
     zero[...] = F(0)
     for k in range(1, N1 + 1):
@@ -318,6 +320,10 @@ def checks(tier):
                 for ptr in (range(N0) if th else sorted({0, 1 % N0, N0 - 1})):
                     for st in (("buffer", "param") if (th or ptr == N0 - 1) else ("buffer",)):
                         single.append(dict(before=b, set=(which, v), ptr=ptr, storage=st, shape=(2,)))
+    # records that are not float32 (spike records are boolean): growing and shrinking must not convert the stored observations
+    for dtn in ("bool", "int64", "float64"):
+        for b, setv in (((1.0, 1.0, True), ("duration", 3.0)), ((1.0, 3.0, True), ("duration", 1.0)), ((1.0, 2.0, False), ("inclusive", True)), ((1.0, 2.0, True), ("dt", 0.5))):
+            single.append(dict(before=b, set=setv, ptr=1, storage="buffer", shape=(2,), dtype=dtn))
     import itertools
     pairs = [(a, b) for a in trip for b in trip]
     if not th:
